@@ -35,6 +35,8 @@ MANIFEST = {
 }
 
 SEGS = ["a", "..", ".", "", "x" * 250]
+DISGUISED = ["..\x00", "\x00..", ".\x00.", ".\x00"]
+ALLSEGS = SEGS + DISGUISED
 MNAMES = ["m", "../e", "a/b", "..", "x" * 300, "/abs"]
 
 
@@ -49,6 +51,19 @@ def class_names():
         for lead in ((), (EMPTY,), (DOT,), (A,)):
             out.append(tuple(lead) + (DD,) * k + (A,))
             out.append(tuple(lead) + (DD,) * k)
+    # segments that only BECOME '..' / '.' after a later clean-up step (an embedded U+0000 is legal MUTF-8, and code that
+    # strips it after the segment check re-creates the climbing segment): all names of 1..2 segments over SEGS + DISGUISED,
+    # and 3-segment names whose first two segments are disguised
+    ext = list(range(len(SEGS) + len(DISGUISED)))
+    dis = ext[len(SEGS):]
+    for n in (1, 2):
+        for segs in itertools.product(ext, repeat=n):
+            if any(x in dis for x in segs):
+                out.append(segs)
+    for a in dis:
+        for b_ in dis:
+            for c in (A, DD):
+                out.append((a, b_, c))
     return out
 
 
@@ -65,9 +80,11 @@ def cases(ctx):
 def features(case):
     segs, mi, ptype = case
     f = []
-    names = [SEGS[i] for i in segs]
+    names = [ALLSEGS[i] for i in segs]
     if ".." in names:
         f.append("class:dotdot")
+    if any("\x00" in n for n in names):
+        f.append("class:nul-disguised-dots")
     if "." in names:
         f.append("class:dot")
     if "" in names:
@@ -83,7 +100,7 @@ def features(case):
 def build(case):
     from gen import dalvik as D, dexgen as G
     segs, mi, ptype = case
-    cname = "L" + "/".join(SEGS[i] for i in segs) + ";"
+    cname = "L" + "/".join(ALLSEGS[i] for i in segs) + ";"
     params = ("L../../p/Q;", "I") if ptype else ("I",)
     ret = "L../r/R;" if ptype else "V"
     code = G.Code(3, 2, 0, (D.enc("const/4", 0, 0) + D.enc("return-object", 0)) if ptype else D.enc("return-void"))
@@ -137,7 +154,7 @@ def judge(case):
         if outside:
             fs = features(case)
             # input-side key: the most specific hostile component (class '..' dominates, then the method-name kind)
-            dom = ([f for f in fs if f == "class:dotdot"] or [f for f in fs if f.startswith("method:") and f != "method:plain"]
+            dom = ([f for f in fs if f == "class:nul-disguised-dots"] or [f for f in fs if f == "class:dotdot"] or [f for f in fs if f.startswith("method:") and f != "method:plain"]
                    or [f for f in fs if f.startswith("param:")] or [f for f in fs if f.startswith("class:")] or ["plain"])[0]
             return ("escape:" + dom,
                     "class %r method %r: created outside the output directory %s: %s (exception: %s)"
@@ -156,7 +173,7 @@ def shards(ctx):
 
 
 def space(ctx):
-    return {"segments": ["a", "..", ".", "", "x*250"], "max_segments": 3, "climbing_chains": "3..6 leading '..' behind {nothing, empty, '.', 'a'}, with and without a final name", "class_names": len(class_names()),
+    return {"segments": ["a", "..", ".", "", "x*250"], "disguised_segments": ["..\\0", "\\0..", ".\\0.", ".\\0"], "max_segments": 3, "climbing_chains": "3..6 leading '..' behind {nothing, empty, '.', 'a'}, with and without a final name", "class_names": len(class_names()),
             "method_names": [m[:12] for m in MNAMES], "exports": sum(1 for _ in cases(ctx)), "output_nesting": 8}
 
 
@@ -174,7 +191,7 @@ def run_shard(ctx, shard):
         if r:
             acc.violation(r[0], {"case": case}, r[1])
         if n in (0, 13):
-            acc.sample({"class_segments": [SEGS[i][:8] for i in case[0]], "method": MNAMES[case[1]][:12], "paths_created": created, "exception": exc})
+            acc.sample({"class_segments": [ALLSEGS[i][:8] for i in case[0]], "method": MNAMES[case[1]][:12], "paths_created": created, "exception": exc})
     return acc
 
 
